@@ -710,7 +710,7 @@ func (auth *Authenticator) casUpdatePrincipal(p Principal, callback casUpdatePri
 		}
 
 		if !base.IsCasMismatch(saveErr) {
-			return err
+			return saveErr
 		}
 
 		base.InfofCtx(auth.LogCtx, base.KeyAuth, "CAS mismatch in casUpdatePrincipal, retrying.  Principal:%s", base.UD(p.Name()))
